@@ -5,7 +5,7 @@
 # property's quick check against it through an overlay, and stores it as seeded/<seed-id>/.
 P=$1; S=$2; DP=$3; RE=$4; shift 4; PKGS="$@"
 export GOFLAGS=-mod=mod GOPROXY=off
-M=/tmp/atk/$P/out; WT=/tmp/evalwt_$S
+M=${ATK_ROOT:-/tmp/atk}/$P/out; WT=/tmp/evalwt_$S
 git -C /repo worktree remove --force $WT 2>/dev/null; git -C /repo worktree add -q --detach $WT HEAD || exit 2
 cd $WT
 IFS=, read -ra DIRS <<< "$DP"
